@@ -1,7 +1,8 @@
 #!/bin/sh
 # Unbounded check of the rename registry (spec/MigInd.tla) with Apalache.
 # usage: apalache_c17.sh <scratch dir>; exit 0 = proved, 1 = counterexample, 2 = tool failure
-d="$1"; mkdir -p "$d/apa" && cp /verif/spec/MigPure.tla /verif/spec/MigInd.tla /verif/spec/MigIndBad.tla "$d/apa/" || exit 2
+here=$(cd "$(dirname "$0")/.." && pwd)
+d="$1"; mkdir -p "$d/apa" && cp $here/spec/MigPure.tla $here/spec/MigInd.tla $here/spec/MigIndBad.tla "$d/apa/" || exit 2
 cd "$d/apa" || exit 2
 cat > c.cfg <<EOC
 CONSTANT Names = {"a","b","c","d","e"}
@@ -24,4 +25,9 @@ run "base (Init => IndInv)" MigInd i.cfg Init IndInv 0 ok
 run "step (IndInv /\\ Next => IndInv')" MigInd c.cfg IndInit IndInv 1 ok
 run "consequence (IndInv => FamIdem)" MigInd c.cfg IndInit FamIdem 0 ok
 run "non-vacuity (old registry must fail the step)" MigIndBad c.cfg IndInit IndInv 1 cex
+# TLAPS: the same invariant for ANY set of names (spec/MigProof.tla), proved from scratch
+mkdir -p "$d/tlaps" && cp $here/spec/MigFun.tla $here/spec/MigProof.tla "$d/tlaps/" && cd "$d/tlaps" || exit 2
+out=$(timeout 900 tlapm --threads 8 --cleanfp MigProof.tla 2>&1)
+n=$(echo "$out" | sed -n 's/.*All \([0-9]*\) obligations proved.*/\1/p' | head -1)
+if [ -n "$n" ]; then echo "tlaps MigProof (InitInv, StepInv): ok, $n obligations proved"; else echo "tlaps MigProof: failed"; echo "$out" | grep -v "^Called\|^Raised" | tail -8; exit 2; fi
 exit 0
